@@ -187,10 +187,11 @@ Section ExtSlice.
     (* phase 1 *)
     destruct (miter_parent_spec x vals h NIv) as (h1 & E1 & LH1 & O1 & V1).
     assert (Gx1 : get h1 x = Some nx) by (destruct LH1 as (_ & Ex & _); congruence).
-    unfold node_setitem_slice. rewrite (bind_R _ _ _ _ _ E1). rewrite (bind_getn x nx _ h1 Gx1).
+    unfold node_setitem_slice. rewrite (bind_getn x nx _ h Gx).
     fold cs. rewrite SI.
     assert (E1f : (st =? 1) = false) by (apply Z.eqb_neq; auto). rewrite E1f.
-    assert (Ekb : (Z.of_nat (length vals) =? range_len s e st) = true) by (apply Z.eqb_eq; auto). rewrite Ekb. cbn [negb].
+    assert (Ekb : (Z.of_nat (length vals) =? range_len s e st) = true) by (apply Z.eqb_eq; auto). rewrite Ekb. cbn [negb andb].
+    cbv iota. rewrite (bind_R _ _ _ _ _ E1).
     rewrite <- Ek. rewrite Nat2Z.id. fold k. fold new.
     rewrite bind_modn. set (h2 := upd h1 x (set_children new)).
     assert (Gx2 : get h2 x = Some (set_children new nx)) by (unfold h2; now apply get_upd_same).
